@@ -156,8 +156,10 @@ def c09_instances(tier, seed):
     out = []
     quick = [(1, 1), (2, 1), (2, 2), (3, 2), (3, 3), (4, 2), (5, 3)]
     for (w, m) in quick:
-        for length in range(0, w + 4):
-            out.append(c09_inst(w, m, w + 3, length))
+        # quick: every length up to w+2 (w+3 for the smallest windows); thorough: up to w+3 everywhere
+        top = w + 3 if (tier == "thorough" or w <= 2) else w + 2
+        for length in range(0, top + 1):
+            out.append(c09_inst(w, m, w + 3, length, timeout=900 if length <= w + 2 else 2400))
     if tier == "thorough":
         for (w, m) in [(4, 1), (6, 3), (6, 5), (8, 5)]:
             for length in range(0, w + 3):
@@ -306,7 +308,8 @@ MAPU = 34  # the map/set model's lookup loops run MAP_CAP = 32 times
 
 
 def kmer_loop(n):
-    return ("kmer/src/kmer.rs", r"^\s*loop\s*\{", n + 2)
+    # at least 12: the loop body is small, and equal bounds let instances share one cargo-kani invocation
+    return ("kmer/src/kmer.rs", r"^\s*loop\s*\{", max(n + 2, 12))
 
 
 def cgr_loop(n):
@@ -780,7 +783,7 @@ def c14_instances(tier, seed):
     for k in ([5, 6, 7] if tier == "quick" else [7, 8]):
         out.append(Inst("c14_table_range_k%d" % k, "verif_c14", "composition", "c14_table_range::<%d>(&RANK_K%d, COUNT_K%d)" % (k, k, k), 4,
                         {"clause": "(a) every pos_map entry is an accumulator index", "k": k, "code": "symbolic", "tables": [k]}, core=(k <= 7), timeout=900, cost=2.0 * k))
-    for (k, n, e, mb) in ([(2, 4, 2, 8), (31, 32, 1, 8)] if tier == "quick" else [(2, 4, 2, 8), (2, 4, 2, 63), (3, 5, 3, 63), (31, 33, 2, 63)]):
+    for (k, n, e, mb) in ([(2, 4, 2, 8), (3, 5, 1, 8)] if tier == "quick" else [(2, 4, 2, 8), (3, 5, 1, 8), (31, 32, 1, 8), (2, 4, 2, 63), (3, 5, 3, 63), (31, 33, 2, 63)]):
         out.append(Inst("c14_cov_safety_k%d_n%d_e%d_s%d" % (k, n, e, mb), "verif_c14v", "coverage",
                         "c14_cov_safety::<%d, %d, %d, %d, %d>()" % (k, n, e, 1 + (n % 4), 2 ** mb), MAPU,
                         {"clause": "(a) get_unchecked_mut(vec_bin) of CovComputer::vectorise_one", "k": k, "max_len": n, "table_entries": e,
@@ -905,14 +908,22 @@ def c13_instances(tier, seed):
         out.append(Inst("c13_header_k%d" % k, "verif_c13o", "pybindings", "c13_header::<%d>(&RANK_K%d, &INV_K%d, COUNT_K%d)" % (k, k, k, k),
                         MAPU,
                         {"clause": "binding header equals core header", "k": k, "columns": "all (concrete walk)", "tables": [k]}, core=(k <= 2), timeout=1800, cost=100.0))
-    for (k, n) in ([(2, 5), (31, 33)] if tier == "quick" else [(1, 5), (2, 6), (4, 8), (31, 34)]):
+    for (k, n) in ([(2, 6), (31, 12)] if tier == "quick" else [(1, 8), (2, 8), (31, 40)]):
+        out.append(Inst("c13_kmer_wiring_k%d_n%d" % (k, n), "verif_c13k", "pybindings", "c13_kmer_wiring::<%d, %d>()" % (k, n), n + 2,
+                        {"clause": "k-mer iterator wiring: the wrapped core iterator walks the object's own copy of the given bytes (address, length, content), k stored", "k": k, "len": n},
+                        core=True, timeout=900, cost=10.0))
+    for (w, m, n) in ([(5, 3, 6), (31, 28, 8)] if tier == "quick" else [(5, 3, 8), (31, 28, 12), (8, 5, 10)]):
+        out.append(Inst("c13_min_wiring_w%d_m%d_n%d" % (w, m, n), "verif_c13m", "pybindings", "c13_min_wiring::<%d, %d, %d>()" % (w, m, n), n + 2,
+                        {"clause": "minimiser iterator wiring: wrapped core iterator walks the object's own copy of the given bytes; w, m passed through; first item equal", "w": w, "m": m, "len": n},
+                        core=True, timeout=900, cost=20.0, unwindset=[("kmer/src/minimiser.rs", BUFF_LOOP, w - m + 3)]))
+    for (k, n) in ([(2, 5)] if tier == "quick" else [(1, 5), (2, 6), (4, 8), (31, 33)]):
         out.append(Inst("c13_kmer_iter_k%d_n%d" % (k, n), "verif_c13k", "pybindings", "c13_kmer_iter::<%d, %d, %d>()" % (k, n, n - k + 2), n + 2,
                         {"clause": "k-mer iterator: binding vs core after the String is consumed and the object moved", "k": k, "len": n},
                         core=(k <= 4), timeout=1800, cost=30.0 * n, unwindset=[kmer_loop(n)]))
-    for (w, m, n) in ([(3, 2, 4)] if tier == "quick" else [(2, 1, 4), (3, 2, 5), (4, 2, 6)]):
+    for (w, m, n) in ([(2, 1, 2)] if tier == "quick" else [(2, 1, 2), (2, 1, 3), (3, 2, 4)]):
         out.append(Inst("c13_min_iter_w%d_m%d_l%d" % (w, m, n), "verif_c13m", "pybindings", "c13_min_iter::<%d, %d, %d, %d>()" % (w, m, n, n - w + 3), max(n + 2, w + 2),
                         {"clause": "minimiser iterator: binding vs core after the String is consumed and the object moved", "w": w, "m": m, "len": n},
-                        core=(n <= 4), timeout=2400, cost=300.0,
+                        core=(n <= 2), timeout=2400, cost=300.0,
                         unwindset=[("kmer/src/minimiser.rs", BUFF_LOOP, w - m + 3)]))
     return out
 
@@ -924,6 +935,8 @@ PROPS["C13"] = Prop(
         Module("composition", "verif_c11", "harness/composition/verif_c11.rs", parent="cgr"),
         Module("pybindings", "verif_c13o", "harness/pybindings/verif_c13o.rs", parent="oligo"),
         Module("pybindings", "verif_c13c", "harness/pybindings/verif_c13c.rs", parent="cgr"),
+        Module("kmer", "verif_c13a", "harness/kmer/verif_c13a.rs", parent="kmer"),
+        Module("kmer", "verif_c13b", "harness/kmer/verif_c13b.rs", parent="minimiser"),
         Module("pybindings", "verif_c13k", "harness/pybindings/verif_c13k.rs", parent="kmer"),
         Module("pybindings", "verif_c13m", "harness/pybindings/verif_c13m.rs", parent="min"),
     ],
@@ -949,6 +962,10 @@ PROPS["C13"] = Prop(
         ("CGR point differs", "cgr-point-differs"),
         ("k-mer iterator yields", "kmer-iter-differs"),
         ("minimiser iterator yields", "min-iter-differs"),
+        ("does not walk the bytes", "iterator-wiring"),
+        ("owns a string of different length", "iterator-wiring"),
+        ("owns different bytes", "iterator-wiring"),
+        ("stores a different", "iterator-wiring"),
     ],
 )
 
